@@ -69,6 +69,7 @@ structure Choreo where
   wlErrCloses : Bool       -- a write error calls closeNetConn
   tlCw : Bool              -- timerLoop selects on closeWriteLoopCh and returns
   shCw : Bool        -- arms of Shutdown's select
+  shCwChecks : Bool  -- the closeWriteLoopCh arm reads the completion flags under a.lock: nil only if the peer's SHUTDOWN-ACK / SHUTDOWN-COMPLETE came
   shCtx : Bool
   cnHs : Bool   -- arms of the client constructor's select (ctx arm calls Close())
   cnRc : Bool
@@ -99,6 +100,7 @@ def Choreo.expected : Choreo where
   wlErrCloses := true
   tlCw := true
   shCw := true
+  shCwChecks := true
   shCtx := true
   cnHs := true
   cnRc := true
@@ -122,6 +124,7 @@ inductive Err
   | transport                -- netConn.Read failed (peer closed, injected failure, read deadline, our own Close)
   | abort (cause : String)   -- handleAbort: the error text lists the causes of the ABORT chunk
   | closedBeforeConn | handshake | ctx | notEstablished | shutdownNonEstablished
+  | shutdownIncomplete       -- Shutdown: the association closed before the peer's SHUTDOWN-ACK / SHUTDOWN-COMPLETE arrived
   deriving DecidableEq, Repr, Inhabited
 
 inductive Res
@@ -137,6 +140,7 @@ inductive Pkt
   | abort (cause : String)
   | reset (sid : Nat)        -- outgoing-reset request for stream sid performed now
   | shutdownComplete
+  | shutdownAck              -- the peer's SHUTDOWN-ACK: shutdownCompletePending := true
   deriving DecidableEq, Repr, Inhabited
 
 inductive RL
@@ -195,6 +199,7 @@ structure St where
   hsTried : Bool := false
   hsDone : Bool := false
   ctxCancelled : Bool := false
+  sdAcked : Bool := false           -- shutdownCompletePending || shutdownCompleteReceived: the peer acknowledged our SHUTDOWN
   -- processes
   rl : RL := .reading
   wl : WL := .sel
@@ -308,7 +313,12 @@ def callerStep (ch : Choreo) (s : St) (i : Nat) (arm : Nat) : Option St :=
         else some (setCaller (applyOp ch { s with notEst := true, awake := true } .unblockWrites) i .shWait)
       else none
     | .shWait =>
-      if arm == 0 then (if ch.shCw && s.cw then some (setCaller s i (.fin .sh .nil)) else none)
+      if arm == 0 then
+        (if ch.shCw && s.cw then
+          (if ch.shCwChecks then
+            (if s.lock.isNone then some (setCaller s i (.fin .sh (if s.sdAcked then .nil else .err .shutdownIncomplete))) else none)
+          else some (setCaller s i (.fin .sh .nil)))
+        else none)
       else (if ch.shCtx && s.ctxCancelled then some (setCaller s i (.fin .sh (.err .ctx))) else none)
     | .cl k =>
       match ch.closeApi[k]? with
@@ -368,7 +378,8 @@ def step (ch : Choreo) (s : St) : Act → Option St
         | .reset sid =>
           if s.gone.contains sid || s.unreg then some { s with rl := .reading }
           else some { s with rl := .reading, gone := sid :: s.gone, callers := wakeReaders ch.resetWake (fun x => x == sid) s.callers }
-        | .shutdownComplete => some { applyOps ch s ch.closeProg with rl := .reading }
+        | .shutdownComplete => some { applyOps ch s ch.closeProg with rl := .reading, sdAcked := true }
+        | .shutdownAck => some { s with rl := .reading, sdAcked := true, awake := true }
       else none
     | _ => none
   | .rlCH arm =>
